@@ -54,7 +54,11 @@ type c17Mod struct {
 func c17GnuTar(c c17Case) ([]byte, error) {
 	base := world.NewDir("c17tree")
 	defer os.RemoveAll(base)
-	top := filepath.Join(base, "top")
+	topName := "top"
+	if c.Root != "./" && c.Root != "/" {
+		topName = strings.TrimSuffix(c.Root, "/")
+	}
+	top := filepath.Join(base, topName)
 	if err := os.MkdirAll(top, 0755); err != nil {
 		return nil, err
 	}
@@ -91,9 +95,9 @@ func c17GnuTar(c c17Case) ([]byte, error) {
 		}
 	} else {
 		args = append(args, "-C", base)
-		names = append(names, "top")
+		names = append(names, topName)
 		for _, e := range c.Tree {
-			names = append(names, "top/"+strings.TrimPrefix(e.Path, "/"))
+			names = append(names, topName+"/"+strings.TrimPrefix(e.Path, "/"))
 		}
 	}
 	cmd := exec.Command("/usr/bin/tar", append(args, names...)...)
@@ -493,7 +497,7 @@ func TestC17(t *testing.T) {
 		cfg := world.Cfg{Level: "fastest", WriteCache: rapid.SampledFrom([]string{"memory", "file"}).Draw(t, "cache"), RecordSize: rapid.SampledFrom(hist.RecordSizes).Draw(t, "record_size")}
 		c := c17Case{
 			Format:   rapid.SampledFrom([]string{"ustar", "pax", "gnu"}).Draw(t, "format"),
-			Root:     rapid.SampledFrom([]string{"./", "/", "top/", "./", "top/"}).Draw(t, "root"),
+			Root:     rapid.SampledFrom([]string{"./", "/", "top/", "./", "top/", ".config/", "a b/", "é/", "top.d/", "x-y/"}).Draw(t, "root"),
 			RootPerm: uint32(rapid.SampledFrom([]int{0755, 0777, 0700}).Draw(t, "rootperm")),
 		}
 		dirs := []string{"/"}
